@@ -48,7 +48,14 @@ NUL == ChrTable[0]
 \* isspace() is true for these, Scan!Space does not have them: the only place where scan.c asks isspace of a
 \* source character is after an escape (scAdvance1), so a text is read faithfully by Scan unless it has `_` + one of them
 OddSpace == {ChrTable[11], ChrTable[12], ChrTable[13]}
-Faithful(text) == \A i \in 1..(Len(text) - 1) : ~(text[i] = "_" /\ text[i + 1] \in OddSpace)
+\* scanSysCommand advances with escape processing (an escaped line end continues the command on the next line),
+\* Scan!ScanSysCommand takes the rest of the line literally: a `#` line with an escape character is outside the
+\* part of scan.c that Scan transcribes
+EscInSysLine(text) ==
+  \E i \in 1..Len(text) : /\ text[i] = "#" /\ (i = 1 \/ text[i - 1] = "\n")
+                          /\ \E j \in i..Len(text) : text[j] = "_" /\ \A k \in i..j : text[k] # "\n"
+Faithful(text) == /\ \A i \in 1..(Len(text) - 1) : ~(text[i] = "_" /\ text[i + 1] \in OddSpace)
+                  /\ ~EscInSysLine(text)
 
 ---------------------------------------------------------------------------
 (* the text as the includer hands it to the scanner when there are NULs     *)
@@ -69,7 +76,12 @@ IncludeAsRead(text) ==
 (* the certificates                                                         *)
 BracketPairs == << <<"(", ")">>, <<"[", "]">>, <<"{", "}">>, <<"(|", "|)">>, <<"[|", "|]">>, <<"{|", "|}">> >>
 CountKw(tl, s) == Cardinality({i \in 1..Len(tl) : IsKw(tl[i], s)})
-BadBrackets(tl) == \E j \in 1..Len(BracketPairs) : CountKw(tl, BracketPairs[j][1]) # CountKw(tl, BracketPairs[j][2])
+BracketSet == {BracketPairs[j][1] : j \in 1..Len(BracketPairs)} \cup {BracketPairs[j][2] : j \in 1..Len(BracketPairs)}
+BracketCounts(tl) ==      \* one pass: spelling -> number of keyword tokens with that spelling
+  FoldLeft(LAMBDA acc, tok : IF tok.k = "kw" /\ tok.t \in BracketSet THEN [acc EXCEPT ![tok.t] = @ + 1] ELSE acc,
+           [b \in BracketSet |-> 0], tl)
+BadBrackets(tl) == LET n == BracketCounts(tl)
+                   IN  \E j \in 1..Len(BracketPairs) : n[BracketPairs[j][1]] # n[BracketPairs[j][2]]
 HasErrTok(tl)   == \E i \in 1..Len(tl) : tl[i].k = "err"
 Unbalanced(tl)  == CheckBalance(XBlankLines(XComments(SysCmd(tl)))).err > 0
 
